@@ -34,6 +34,8 @@ C07_Reconcile ==
            T.st = "ok" => \A a \in {T.snd[i][1] : i \in 1..Len(T.snd)} : SumWhere(T.post, 1, a) = GivenBy(T.snd, a) - KeptFrom(T.snd, T.rcv, a))
   /\ Check("C07", "non-positive posting, kept marker or wrong asset in a posting",
            T.st = "ok" => \A i \in 1..Len(T.post) : T.post[i][3] > 0 /\ T.post[i][2] # KEPT /\ T.post[i][1] # KEPT /\ T.post[i][4] = "COIN")
+  /\ Check("C07", "the same lists multiplied by a factor beyond 2^31 / 2^63 / 2^64 do not give the multiplied postings",
+           "scaled" \in DOMAIN T => T.scaled)
 Post == TLCGet(2) = 0
 ASSUME TLCSet(2, 0)
 =============================================================================
